@@ -319,3 +319,33 @@ func (s *Sim) forgeEvidence(dst int, rs *cstypes.RoundState) {
 	s.ah.Add("evidence", mut)
 	s.inject(dst, 0x38, bz, fmt.Sprintf("EVIDENCE(%s) h%d r%d by %x", mut, va.Height, va.Round, va.ValidatorAddress[:3]))
 }
+
+// checkVotedEvidence: C19 inside a proposed block. A correct validator's vote for a block is
+// its acceptance of the block's evidence list: every item must show real double-signing, appear
+// once, and not be committed already below the block's height.
+func (m *monitors) checkVotedEvidence(id int, kind string, kb *knownBlock) bool {
+	s := m.s
+	c := m.c19
+	seen := map[common.Hash]bool{}
+	for _, ev := range kb.block.Evidence().Evidence {
+		h := ev.Hash()
+		if seen[h] {
+			s.res.Violate("C19", "duplicate-evidence-in-voted-block", "a correct validator voted for a block that lists the same evidence twice",
+				fmt.Sprintf("node %d %s for block %s h%d (%s): evidence %s repeated", id, kind, short(kb.id.Hash), kb.height, kb.kind, short(h)))
+			return true
+		}
+		seen[h] = true
+		if real, why := m.evidenceIsReal(ev); !real {
+			s.res.Violate("C19", "forged-evidence-in-voted-block", "a correct validator voted for a block carrying evidence that does not show real double-signing: "+why,
+				fmt.Sprintf("node %d %s for block %s h%d (%s): evidence %s", id, kind, short(kb.id.Hash), kb.height, kb.kind, short(h)))
+			return true
+		}
+		if c.committed[h] > 0 && c.commitH[h] < kb.height {
+			s.res.Violate("C19", "committed-evidence-in-voted-block", "a correct validator voted for a block carrying evidence that is already committed",
+				fmt.Sprintf("node %d %s for block %s h%d (%s): evidence %s committed at h%d", id, kind, short(kb.id.Hash), kb.height, kb.kind, short(h), c.commitH[h]))
+			return true
+		}
+		s.res.Probe("c19-evidence-in-voted-block-checked")
+	}
+	return false
+}
